@@ -47,13 +47,14 @@ META = {
     "driver_id": "Edit",
     "coq_targets": ["Props/C16.vo", "Extract/Extract_Edit.vo"],
     "technique": "Coq proof of an observation equivalence over the executable edit-machine model (the model mirrors the in-place sort of get_track_neighbors) + deep before/after snapshot oracle on the implementation for every read-only operation + step-by-step differential correspondence of the extracted model with the implementation on the query operations",
-    "level_text": "Proved in Coq for the model (Props/C16.v, all closed under the global context), with ro_eq s s' := graph, segmentation, feature registry and flags, undo stack, redo stack, refresh log, id counter, max track / lineage ids and lineage lookup equal, and the track lookup equal as a lookup (same keys in the same order, every list a Permutation of its counterpart): C16_ro_equivalence - ro_eq is reflexive, symmetric, transitive; C16_book_eq_meaning - what 'equal as lookups' means (keys equal, per-key Permutation); C16_neighbors - for every state, track id and time ro_eq st (fst (track_neighbors st T t)) (insertion sort by time is a permutation; set of a present key keeps keys and order); C16_neighbors_exact - every other list is untouched and the queried one is stored back time-sorted; C16_step_query - ro_eq st (fst (step st o)) for the ops ONeighbors / OHasTrackAt / ONextIds; C16_has_track_at_next_ids - OHasTrackAt / ONextIds return the very same state; C16_run - a run consisting only of query ops preserves ro_eq; C16_new_ids_exception - the documented exception _get_new_node_ids (ONewIds) leaves everything but the counter unchanged and advances the counter by at least n (so it is NOT read-only and is excluded); C16_queries_respect_ro - no query of the model (has_track_at, next ids, get_pixels, successors, predecessors, attribute reads) distinguishes ro_eq states. Example C16_nonvacuous: a state whose lookup list [3;1;2] is out of time order, track_neighbors really rewrites it to [1;2;3] (state changed) and ro_eq holds. C16_scale_note (comment): the model has no scale field since no modelled operation reads or writes scale after commit 2aa8c45. Exports, saves, the scale clause and the queries without model counterpart are NOT theorems: they are decided by the deep snapshot oracle of harness/props/c16.py (graph _node/_adj/_pred with value types and dict order, segmentation bytes/dtype/shape/identity, scale value and type, ndim, feature registry and keys, annotator flags, lookups exact and as multisets, max ids, id counter, identity of every history entry, object __dict__ keys, refresh emissions). C16_queries_are_generated: the queries of the model (get_track_neighbors with its in-place sort, has_track_id_at_time, next track / lineage id, _get_new_node_ids) equal the code translated on every run from solution_tracks.py and tracks.py (Gen/CoreQueries_gen.v, Gen/CoreTracks_gen.v).",
+    "level_text": "Proved in Coq for the model (Props/C16.v, all closed under the global context), with ro_eq s s' := graph, segmentation, feature registry and flags, undo stack, redo stack, refresh log, id counter, max track / lineage ids and lineage lookup equal, and the track lookup equal as a lookup (same keys in the same order, every list a Permutation of its counterpart): C16_ro_equivalence - ro_eq is reflexive, symmetric, transitive; C16_book_eq_meaning - what 'equal as lookups' means (keys equal, per-key Permutation); C16_neighbors - for every state, track id and time ro_eq st (fst (track_neighbors st T t)) (insertion sort by time is a permutation; set of a present key keeps keys and order); C16_neighbors_exact - every other list is untouched and the queried one is stored back time-sorted; C16_step_query - ro_eq st (fst (step st o)) for the ops ONeighbors / OHasTrackAt / ONextIds; C16_has_track_at_next_ids - OHasTrackAt / ONextIds return the very same state; C16_run - a run consisting only of query ops preserves ro_eq; C16_new_ids_exception - the documented exception _get_new_node_ids (ONewIds) leaves everything but the counter unchanged and advances the counter by at least n (so it is NOT read-only and is excluded); C16_queries_respect_ro - no query of the model (has_track_at, next ids, get_pixels, successors, predecessors, attribute reads) distinguishes ro_eq states. Example C16_nonvacuous: a state whose lookup list [3;1;2] is out of time order, track_neighbors really rewrites it to [1;2;3] (state changed) and ro_eq holds. C16_scale_note (comment): the model has no scale field since no modelled operation reads or writes scale after commit 2aa8c45. Exports, saves, the scale clause and the queries without model counterpart are NOT theorems: they are decided by the deep snapshot oracle of harness/props/c16.py (graph _node/_adj/_pred with value types and dict order, segmentation bytes/dtype/shape/identity, scale value and type, ndim, feature registry and keys, annotator flags, lookups exact and as multisets, max ids, id counter, identity of every history entry, object __dict__ keys, refresh emissions). C16_queries_are_generated: the queries of the model (get_track_neighbors with its in-place sort, has_track_id_at_time, next track / lineage id, _get_new_node_ids) equal the code translated on every run from solution_tracks.py and tracks.py (Gen/CoreQueries_gen.v, Gen/CoreTracks_gen.v). C16_export_*_is_generated / C16_save_is_generated: the exporters of the model are the code translated on every run from csv/_export.py, geff/_export.py, internal_format.py and _feature_dict.py; the translator treats the tracks object as read-only (any in-place modification of it or of a value reachable from it is refused), so a generated exporter is a function from the tracks to the values handed to the file writers.",
     "level_note": "Trusted: Coq kernel, extraction (ExtrOcamlBasic only), OCaml driver drv_Edit.ml, Python harness and snapshot oracle. The theorems speak about the hand-written model coq/Model/Edit.v; a side effect added to the Python is invisible to them - it is the snapshot oracle (run on every check) that ties the read-only claim to /repo. Excluded: Tracks._get_new_node_ids (advances node_id_counter; private fresh-id source, not a read-only query). networkx's own cached views (graph.__dict__ entries of functools.cached_property: nodes, edges, adj, ...) are not counted as a modification. Returned references (track_id_to_node returns the live dict, get_node_attr the live list) can be mutated by the caller: outside the property.",
     "design_ref": "DESIGN.md section 9 (C16)",
     "assumptions": ["the in-place sort of tracklet_id_to_nodes[track_id] by get_track_neighbors is the one documented write of a query; the lookup is compared as a multiset for that key only",
                     "_get_new_node_ids is not a read-only operation (excluded)",
                     "export targets are fresh directories / files under a private temporary directory"],
-    "trusted": ["translator harness/translate_core.py (closed idiom table; fail closed) with coq/Model/PyRt3.v; hand models left under it: regionprops / edge annotator update, bulk compute, networkx and array primitives",
+    "trusted": ["translator harness/translate_export.py (closed idiom table; tracks read-only; fail closed) with coq/Model/PyRt7.v",
+                "translator harness/translate_core.py (closed idiom table; fail closed) with coq/Model/PyRt3.v; hand models left under it: regionprops / edge annotator update, bulk compute, networkx and array primitives",
                 "snapshot oracle harness/props/c16.py (freeze / snapshot / diff)",
                 "scenario generator harness/editmachine.py, shared engine harness/edit_engine.py, oracles harness/edit_oracles.py"],
 }
